@@ -85,7 +85,7 @@ var fuzzEndpoints = []string{"r-list", "r-check", "r-check-open", "r-postcheck",
 var fuzzMutations = []string{"valid", "unknown-ns", "no-subject", "both-subjects", "body-null", "null-element", "wrong-types",
 	"depth-negative", "depth-huge", "depth-nan", "size-negative", "size-huge", "size-nan", "bad-token",
 	"empty-strings", "huge-strings", "truncated-json", "empty-body", "extra-fields", "absent-submessage",
-	"unknown-action", "batch-too-large", "invalid-utf8", "wrong-method", "no-namespace", "size-maxint", "id-and-partial-set"}
+	"unknown-action", "batch-too-large", "invalid-utf8", "wrong-method", "no-namespace", "size-maxint", "id-and-partial-set", "empty-namespace"}
 
 func isREST(e string) bool { return strings.HasPrefix(e, "r-") || strings.HasPrefix(e, "w-") || strings.HasPrefix(e, "s-") }
 func hasBody(e string) bool {
@@ -141,6 +141,9 @@ func applicable(e, m string) bool {
 		return isREST(e)
 	case "no-namespace":
 		return e == "w-delete" || e == "r-list" || e == "r-expand"
+	case "empty-namespace":
+		// the namespace key is present and its value is the empty string (not a configured namespace)
+		return e == "w-delete" || e == "r-list" || e == "g-list" || e == "g-delete"
 	}
 	return false
 }
@@ -308,6 +311,16 @@ func (f *fuzzEnv) fire(r *rand.Rand, e, m string) (class string) {
 	}
 	if m == "no-namespace" {
 		q.Del("namespace")
+	}
+	if m == "empty-namespace" {
+		q.Set("namespace", "")
+		ns = ""
+		// nothing else in the query: it would otherwise narrow what a dropped namespace filter hits
+		for _, k := range []string{"object", "relation", "subject_id", "subject_set.namespace", "subject_set.object", "subject_set.relation"} {
+			if r.Intn(2) == 0 {
+				q.Del(k)
+			}
+		}
 	}
 	if depth != "" || m == "depth-nan" {
 		q.Set("max-depth", depth)
@@ -513,6 +526,9 @@ func (f *fuzzEnv) fire(r *rand.Rand, e, m string) (class string) {
 		return grpcClass(err)
 	case "g-delete":
 		rq := &rts.RelationQuery{Namespace: &ns, Object: &obj, Relation: &rel}
+		if m == "empty-namespace" {
+			rq = &rts.RelationQuery{Namespace: &ns}
+		}
 		req := &rts.DeleteRelationTuplesRequest{RelationQuery: rq}
 		if m == "absent-submessage" {
 			req = &rts.DeleteRelationTuplesRequest{}
